@@ -11,8 +11,7 @@
             - an update list is not ordered by (index, timestamp, version);
           0 case did not parse. *)
 From Coq Require Import ZArith List Bool.
-From Verif Require Import Base.Wire Annotate.Model Annotate.Case Annotate.GenOk.
-From VerifGen Require GenAnnotate.
+From Verif Require Import Base.Wire Annotate.Model Annotate.Case Annotate.GenConst.
 Import ListNotations.
 Open Scope Z_scope.
 Open Scope wire_scope.
@@ -52,8 +51,7 @@ Definition check_ann : P (list Z) :=
 
 Definition check_sort : P (list Z) :=
   inp <- plist pupdate ;; obs <- plist pupdate ;;
-  (* the model sorts with the comparison regenerated from update.go (GenOk: equal to [less]) *)
-  let j1 := list_eqb update_eqb (isort GenAnnotate.gen_less_index inp) obs in
+  let j1 := list_eqb update_eqb (isort less inp) obs in
   let j2 := sortedb itv_leb obs && list_eqb update_eqb (isort less inp) (isort less obs) in
   ret (code_if j1 1 ++ code_if j2 2)%list.
 
